@@ -107,41 +107,44 @@ Qed.
 
 Definition rest_of_pc (p : pc) : list nat :=
   match p with
-  | PWant c (WFlush r) => c :: r
+  | PWant c (WFlush _ r) => c :: r
   | PWant c (WPkt _ _) => [c]
-  | PRemove c (KFlush r) => c :: r
+  | PRemove c (KFlush _ r _) => c :: r
   | PRemove c KNext => [c]
+  | PRemove2 c _ r => c :: r
   | _ => []
   end.
 Lemma rest_next_pc prog : rest_of_pc (next_pc prog) = [].
 Proof. destruct prog; reflexivity. Qed.
-Lemma rest_cont_flush r prog x : In x (rest_of_pc (cont_flush r prog)) -> In x r.
+Lemma rest_cont_flush a r prog x : In x (rest_of_pc (cont_flush a r prog)) -> In x r.
 Proof. destruct r; cbn; [rewrite rest_next_pc; tauto|auto]. Qed.
 
 Section Proofs.
 Variable cstate : Type.
 Variable cinit : cstate.
 Variable cclosed : cstate -> bool.
+Variable creset : packet -> cstate.
 Variable process : cstate -> bool -> packet -> cstate * list cevent * bool.
-Variable flush : cstate -> cstate * list cevent * bool.
+Variable flush : option Z -> cstate -> cstate * list cevent * bool.
+Variable ctrail : option Z -> cstate -> bool.
 
 Definition count_complete (evs : list cevent) : nat := length (filter is_complete evs).
 
 (* what the pool relies on from the per-connection machine *)
 Definition machine_ok : Prop :=
-  cclosed cinit = false /\
+  cclosed cinit = false /\ (forall p, cclosed (creset p) = false) /\
   (forall st h p st' ev b, process st h p = (st', ev, b) ->
      (b = true -> cclosed st = false /\ cclosed st' = true) /\
      (cclosed st = true -> cclosed st' = true) /\
      count_complete ev = (if b then 1 else 0)) /\
-  (forall st st' ev b, flush st = (st', ev, b) ->
+  (forall a st st' ev b, flush a st = (st', ev, b) ->
      (b = true -> cclosed st = false /\ cclosed st' = true) /\
      (cclosed st = true -> cclosed st' = true) /\
      count_complete ev = (if b then 1 else 0)).
 
 Notation State := (state cstate).
 Notation Conn := (conn cstate).
-Notation exec' := (exec cstate cinit cclosed process flush).
+Notation exec' := (exec cstate cinit cclosed creset process flush ctrail).
 Notation obj' := (obj cstate cinit).
 Notation blank' := (blank cstate cinit).
 Notation enabled' := (enabled cstate cinit).
@@ -157,6 +160,10 @@ Definition pop (s : State) : nat * list nat * list Conn :=
   end.
 
 Definition not_remove (p : pc) : Prop := forall c k, p <> PRemove c k.
+(* program counters from which reassembly's second, unlocked remove() will be reached *)
+Definition trail_pc (p : pc) : bool :=
+  match p with PRemove2 _ _ _ => true | PRemove _ (KFlush _ _ true) => true | _ => false end.
+Definition trail_cfg (g : config) : bool := is_rsm g && g_trail g.
 
 (* the shapes a step can have *)
 Inductive step_spec (g : config) (s : State) (t : nat) (s' : State) : Prop :=
@@ -164,31 +171,31 @@ Inductive step_spec (g : config) (s : State) (t : nat) (s' : State) : Prop :=
     s_conns s' = s_conns s -> s_free s' = s_free s -> s_objs s' = s_objs s -> s_nsid s' = s_nsid s ->
     s_kept s' = s_kept s -> s_log s' = s_log s -> s_thr s' = upd (s_thr s) t th' ->
     not_remove (t_pc th') -> t_pc th' <> PPanic -> not_remove (t_pc (thr s t)) ->
-    (forall p, t_pc (thr s t) <> PMiss p) ->
+    (forall p, t_pc (thr s t) <> PMiss p) -> trail_pc (t_pc th') = false ->
     step_spec g s t s'
 | SpMiss p th' c free' objs0 :
     t_pc (thr s t) = PMiss p -> pop s = (c, free', objs0) ->
     s_free s' = free' ->
-    s_objs s' = upd objs0 c (mkConn (p_key p) (s_nsid s) cinit (c_lock (nth c objs0 blank'))) ->
+    s_objs s' = upd objs0 c (mkConn (p_key p) (s_nsid s) (creset p) (c_lock (nth c objs0 blank'))) ->
     s_nsid s' = S (s_nsid s) -> s_thr s' = upd (s_thr s) t th' -> not_remove (t_pc th') ->
     (s_log s' = ENew t (p_key p) (s_nsid s) :: s_log s \/
      s_log s' = EPanic t :: ENew t (p_key p) (s_nsid s) :: s_log s) ->
     ((lookup g (s_conns s) (p_key p) = None /\ s_conns s' = (p_key p, c) :: s_conns s /\ s_kept s' = s_nsid s :: s_kept s) \/
      (lookup g (s_conns s) (p_key p) <> None /\ s_conns s' = s_conns s /\ s_kept s' = s_kept s)) ->
-    (t_pc th' = PPanic -> is_rsm g = true /\ g_fixme g = true) ->
+    (t_pc th' = PPanic -> is_rsm g = true /\ g_fixme g = true) -> trail_pc (t_pc th') = false ->
     step_spec g s t s'
 | SpProc c w st' evs closes th' :
     t_pc (thr s t) = PWant c w -> c_lock (obj' s c) = None ->
     ((exists p fwd, w = WPkt p fwd /\ process (c_st (obj' s c)) fwd p = (st', evs, closes) /\
         s_log s' = rev (map (ECall t (c_stream (obj' s c)) c) evs) ++
                    EProc t p c (c_key (obj' s c)) (c_stream (obj' s c)) :: s_log s) \/
-     (exists rest, w = WFlush rest /\ flush (c_st (obj' s c)) = (st', evs, closes) /\
+     (exists age rest, w = WFlush age rest /\ flush age (c_st (obj' s c)) = (st', evs, closes) /\
         s_log s' = rev (map (ECall t (c_stream (obj' s c)) c) evs) ++ s_log s)) ->
     s_objs s' = upd (s_objs s) c (mkConn (c_key (obj' s c)) (c_stream (obj' s c)) st' (if closes then Some t else None)) ->
     s_conns s' = s_conns s -> s_free s' = s_free s -> s_nsid s' = s_nsid s -> s_kept s' = s_kept s ->
     s_thr s' = upd (s_thr s) t th' ->
     (closes = true -> exists k, t_pc th' = PRemove c k) -> (closes = false -> not_remove (t_pc th')) ->
-    t_pc th' <> PPanic ->
+    t_pc th' <> PPanic -> (trail_pc (t_pc th') = true -> trail_cfg g = true) ->
     step_spec g s t s'
 | SpRemove c k th' :
     t_pc (thr s t) = PRemove c k ->
@@ -198,12 +205,25 @@ Inductive step_spec (g : config) (s : State) (t : nat) (s' : State) : Prop :=
       (s_free s' = c :: s_free s \/ (s_free s' = s_free s /\ g_recycle g = false)))) ->
     s_nsid s' = s_nsid s -> s_kept s' = s_kept s -> s_log s' = s_log s ->
     s_thr s' = upd (s_thr s) t th' -> not_remove (t_pc th') -> t_pc th' <> PPanic ->
+    (trail_pc (t_pc th') = true -> trail_pc (t_pc (thr s t)) = true) ->
+    step_spec g s t s'
+| SpRemove2 c age rest th' :
+    t_pc (thr s t) = PRemove2 c age rest -> s_objs s' = s_objs s ->
+    ((s_conns s' = s_conns s /\ s_free s' = s_free s) \/
+     (s_conns s' = remove_assoc (c_key (obj' s c)) (s_conns s) /\
+      (s_free s' = c :: s_free s \/ (s_free s' = s_free s /\ g_recycle g = false)))) ->
+    s_nsid s' = s_nsid s -> s_kept s' = s_kept s -> s_log s' = s_log s ->
+    s_thr s' = upd (s_thr s) t th' -> not_remove (t_pc th') -> t_pc th' <> PPanic -> trail_pc (t_pc th') = false ->
     step_spec g s t s'.
 
 Lemma next_pc_nr prog : not_remove (next_pc prog) /\ next_pc prog <> PPanic.
 Proof. unfold next_pc, not_remove. destruct prog; split; try intros; discriminate. Qed.
-Lemma cont_flush_nr rest prog : not_remove (cont_flush rest prog) /\ cont_flush rest prog <> PPanic.
+Lemma cont_flush_nr a rest prog : not_remove (cont_flush a rest prog) /\ cont_flush a rest prog <> PPanic.
 Proof. unfold cont_flush. destruct rest; [apply next_pc_nr|]. split; [intros c k|]; discriminate. Qed.
+Lemma next_pc_nt prog : trail_pc (next_pc prog) = false.
+Proof. destruct prog; reflexivity. Qed.
+Lemma cont_flush_nt a rest prog : trail_pc (cont_flush a rest prog) = false.
+Proof. destruct rest; [apply next_pc_nt|reflexivity]. Qed.
 
 Lemma enabled_lt (s : State) t : enabled' s t = true -> t < length (s_thr s).
 Proof.
@@ -211,7 +231,8 @@ Proof.
   rewrite nth_overflow in H by assumption. discriminate.
 Qed.
 
-Ltac nr := first [apply next_pc_nr | apply cont_flush_nr | (intros ? ?; discriminate) | discriminate].
+Ltac nr := first [apply next_pc_nr | apply cont_flush_nr | apply next_pc_nt | apply cont_flush_nt | reflexivity
+                 | (intros ? ?; discriminate) | discriminate].
 
 Lemma do_lookup_spec g (s : State) t p prog :
   not_remove (t_pc (thr s t)) -> (forall p, t_pc (thr s t) <> PMiss p) ->
@@ -229,7 +250,7 @@ Proof.
   - (* PStart *)
     assert (Hnr : not_remove (t_pc (thr s t))) by (rewrite Epc; intros ? ?; discriminate).
     assert (Hnm : forall p, t_pc (thr s t) <> PMiss p) by (rewrite Epc; intros ?; discriminate).
-    destruct (t_prog (thr s t)) as [|[p|] rest] eqn:Epr.
+    destruct (t_prog (thr s t)) as [|[p|age] rest] eqn:Epr.
     + intros H; inversion H; subst; clear H. eapply SpLocal; cbn; try reflexivity; try assumption; nr.
     + destruct (ignored g p).
       * intros H; inversion H; subst; clear H. eapply SpLocal; cbn; try reflexivity; try assumption; nr.
@@ -238,7 +259,7 @@ Proof.
   - (* PMiss *)
     destruct (s_free s) as [|c f] eqn:Ef.
     + destruct (lookup g (s_conns s) (p_key p)) as [[c2 fwd2]|] eqn:EL.
-      * destruct (is_rsm g && g_fixme g && negb (key_eqb (c_key (nth c2 (set_obj cstate (s_objs s ++ [blank']) (length (s_objs s)) (mkConn (p_key p) (s_nsid s) cinit (c_lock (nth (length (s_objs s)) (s_objs s ++ [blank']) blank')))) blank')) (p_key p))) eqn:EP;
+      * match goal with |- context[if ?b then _ else _] => destruct b eqn:EP end;
           intros H; inversion H; subst; clear H.
         -- eapply SpMiss with (c := length (s_objs s)); cbn; try eassumption; try reflexivity.
            ++ unfold pop; rewrite Ef; reflexivity.
@@ -260,7 +281,7 @@ Proof.
         -- left; split; [assumption|split; reflexivity].
         -- discriminate.
     + destruct (lookup g (s_conns s) (p_key p)) as [[c2 fwd2]|] eqn:EL.
-      * destruct (is_rsm g && g_fixme g && negb (key_eqb (c_key (nth c2 (set_obj cstate (s_objs s) c (mkConn (p_key p) (s_nsid s) cinit (c_lock (nth c (s_objs s) blank')))) blank')) (p_key p))) eqn:EP;
+      * match goal with |- context[if ?b then _ else _] => destruct b eqn:EP end;
           intros H; inversion H; subst; clear H.
         -- eapply SpMiss with (c := c); cbn; try eassumption; try reflexivity.
            ++ unfold pop; rewrite Ef; reflexivity.
@@ -284,45 +305,47 @@ Proof.
   - (* PWant *)
     assert (Hl : c_lock (obj' s c) = None).
     { unfold enabled in En. rewrite Epc in En. destruct (c_lock (obj' s c)); [discriminate|reflexivity]. }
-    destruct w as [p fwd|rest].
+    destruct w as [p fwd|age rest].
     + destruct (match g_pkg g with Tcp => cclosed (c_st (obj' s c)) | Rsm => false end).
       * intros H; inversion H; subst; clear H.
-        (* closed: retry; nothing shared changes *)
         eapply SpLocal; cbn; try reflexivity; try nr; rewrite Epc; [intros ? ?|intros ?]; discriminate.
       * destruct (process (c_st (obj' s c)) fwd p) as [[st' evs] closes] eqn:EPr.
-        destruct closes; intros H; inversion H; subst; clear H.
-        -- eapply SpProc with (closes := true); cbn; try eassumption; try reflexivity.
-           ++ left. exists p, fwd. split; [reflexivity|]. split; [exact EPr|reflexivity].
-           ++ intros _; eexists; reflexivity.
-           ++ discriminate.
-           ++ discriminate.
-        -- eapply SpProc with (closes := false); cbn; try eassumption; try reflexivity.
-           ++ left. exists p, fwd. split; [reflexivity|]. split; [exact EPr|reflexivity].
-           ++ discriminate.
-           ++ intros _; nr.
-           ++ nr.
-    + destruct (flush (c_st (obj' s c))) as [[st' evs] closes] eqn:EPr.
-      destruct closes; intros H; inversion H; subst; clear H.
-      * eapply SpProc with (closes := true); cbn; try eassumption; try reflexivity.
-        -- right. exists rest. split; [reflexivity|]. split; [exact EPr|reflexivity].
-        -- intros _; eexists; reflexivity.
-        -- discriminate.
-        -- discriminate.
-      * eapply SpProc with (closes := false); cbn; try eassumption; try reflexivity.
-        -- right. exists rest. split; [reflexivity|]. split; [exact EPr|reflexivity].
-        -- discriminate.
-        -- intros _; nr.
-        -- nr.
+        destruct closes; intros H; inversion H; subst; clear H;
+          (eapply SpProc; cbn; try eassumption; try reflexivity;
+           [left; exists p, fwd; split; [reflexivity|split; [exact EPr|reflexivity]] | ..]);
+          try (intros _; eexists; reflexivity); try discriminate; try (intros _; nr); try nr;
+          try (intros Ht; cbn [t_pc] in Ht; rewrite ?next_pc_nt, ?cont_flush_nt in Ht; discriminate).
+    + destruct (match g_pkg g with Tcp => cclosed (c_st (obj' s c)) | Rsm => false end).
+      * intros H; inversion H; subst; clear H.
+        eapply SpLocal; cbn; try reflexivity; try nr; rewrite Epc; [intros ? ?|intros ?]; discriminate.
+      * destruct (flush age (c_st (obj' s c))) as [[st' evs] closes] eqn:EPr.
+        destruct (is_rsm g && g_trail g && ctrail age st') eqn:Etr;
+        destruct closes; intros H; inversion H; subst; clear H;
+          (eapply SpProc; cbn; try eassumption; try reflexivity;
+           [right; exists age, rest; split; [reflexivity|split; [exact EPr|reflexivity]] | ..]);
+          try (intros _; eexists; reflexivity); try discriminate; try (intros _; nr); try nr;
+          try (intros _ ? ?; discriminate);
+          try (intros Ht; cbn [t_pc] in Ht; rewrite ?next_pc_nt, ?cont_flush_nt in Ht; discriminate);
+          try (intros _; apply andb_true_iff in Etr as [Etr _]; exact Etr);
+          try (intros Ht; cbn in Ht; discriminate).
   - (* PRemove *)
     intros H; inversion H; subst; clear H.
     eapply SpRemove with (c := c) (k := k); cbn; try eassumption; try reflexivity.
     + destruct (match g_pkg g with Tcp => true | Rsm => match assoc (c_key (obj' s c)) (s_conns s) with Some _ => true | None => false end end) eqn:Ed; cbn.
       * right. split; [reflexivity|]. destruct (g_recycle g); [left; reflexivity|right; split; reflexivity].
       * left; split; reflexivity.
-    + destruct k; nr.
-    + destruct k; nr.
+    + destruct k as [|a r [|]]; nr.
+    + destruct k as [|a r [|]]; nr.
+    + intros Ht; rewrite ?Epc; destruct k as [|a r [|]]; cbn [t_pc] in Ht; cbn [trail_pc];
+        rewrite ?next_pc_nt, ?cont_flush_nt in Ht; try reflexivity; discriminate.
   - (* PRetry *)
     intros H; inversion H; subst; clear H. apply do_lookup_spec; rewrite Epc; [intros ? ?|intros ?]; discriminate.
+  - (* PRemove2 *)
+    intros H; inversion H; subst; clear H.
+    eapply SpRemove2 with (c := c); cbn; try eassumption; try reflexivity; try nr.
+    destruct (assoc (c_key (obj' s c)) (s_conns s)); cbn.
+    + right. split; [reflexivity|]. destruct (g_recycle g); [left; reflexivity|right; split; reflexivity].
+    + left; split; reflexivity.
   - discriminate.
   - discriminate.
 Qed.
@@ -401,10 +424,11 @@ Proof.
   intros I E. assert (Lt : t < length (s_thr s)).
   { apply enabled_lt. unfold exec in E. destruct (enabled' s t); [reflexivity|discriminate]. }
   destruct (exec_spec _ _ _ _ E) as
-    [th' Hc Hf Ho Hn Hk Hl Ht Hnr Hnp Hnr0 Hnm0
-    |p th' c free' objs0 Hpc Hpop Hf Ho Hn Ht Hnr Hl Hcn Hpan
-    |c w st' evs closes th' Hpc Hlk Hw Ho Hc Hf Hn Hk Ht Hcl Hncl Hnp
-    |c k th' Hpc Ho Hcf Hn Hk Hl Ht Hnr Hnp]; intros c2 t2 Hs.
+    [th' Hc Hf Ho Hn Hk Hl Ht Hnr Hnp Hnr0 Hnm0 Htr
+    |p th' c free' objs0 Hpc Hpop Hf Ho Hn Ht Hnr Hl Hcn Hpan Htr
+    |c w st' evs closes th' Hpc Hlk Hw Ho Hc Hf Hn Hk Ht Hcl Hncl Hnp Htr
+    |c k th' Hpc Ho Hcf Hn Hk Hl Ht Hnr Hnp Htr
+    |c age rest th' Hpc Ho Hcf Hn Hk Hl Ht Hnr Hnp Htr]; intros c2 t2 Hs.
   - rewrite (obj_same _ _ _ Ho) in Hs. destruct (I _ _ Hs) as [k Hk2].
     assert (t2 <> t) by (intros ->; exact (Hnr0 _ _ Hk2)).
     exists k. rewrite (thr_upd_ne _ _ _ _ _ H Ht). exact Hk2.
@@ -435,6 +459,9 @@ Proof.
     + rewrite (obj_upd_ne _ _ _ _ _ N Ho) in Hs. destruct (I _ _ Hs) as [k2 Hk2].
       assert (t2 <> t) by (intros ->; rewrite Hpc in Hk2; inversion Hk2; congruence).
       exists k2. rewrite (thr_upd_ne _ _ _ _ _ H Ht). exact Hk2.
+  - rewrite (obj_same _ _ _ Ho) in Hs. destruct (I _ _ Hs) as [k Hk2].
+    assert (t2 <> t) by (intros ->; rewrite Hpc in Hk2; discriminate).
+    exists k. rewrite (thr_upd_ne _ _ _ _ _ H Ht). exact Hk2.
 Qed.
 
 Lemma inv_lock_reachable g progs s : reachable g progs s -> inv_lock s.
@@ -486,9 +513,24 @@ Proof.
   - destruct w.
     + destruct (match g_pkg g with Tcp => cclosed (c_st (obj' s c)) | Rsm => false end); [eexists; reflexivity|].
       destruct (process (c_st (obj' s c)) fwd p) as [[st' evs] closes]. destruct closes; eexists; reflexivity.
-    + destruct (flush (c_st (obj' s c))) as [[st' evs] closes]. destruct closes; eexists; reflexivity.
+    + destruct (match g_pkg g with Tcp => cclosed (c_st (obj' s c)) | Rsm => false end); [eexists; reflexivity|].
+      destruct (flush age (c_st (obj' s c))) as [[st' evs] closes]. destruct closes; eexists; reflexivity.
   - eexists; reflexivity.
   - eexists; reflexivity.
+  - eexists; reflexivity.
+Qed.
+
+(* ---------------------------------------------------------------- a flusher does not touch a closed connection *)
+(* tcpassembly (FlushAll and FlushWithOptions): the step that locks a connection which was closed
+   since the flusher took its snapshot changes nothing but the flusher's own program counter *)
+Lemma flush_skips_closed g (s : State) t s' c a r :
+  g_pkg g = Tcp -> t_pc (thr s t) = PWant c (WFlush a r) -> cclosed (c_st (obj' s c)) = true ->
+  exec' g s t = Some s' ->
+  s_objs s' = s_objs s /\ s_conns s' = s_conns s /\ s_free s' = s_free s /\ s_log s' = s_log s /\
+  s_nsid s' = s_nsid s /\ s_thr s' = upd (s_thr s) t (mkThr (cont_flush a r (t_prog (thr s t))) (t_prog (thr s t))).
+Proof.
+  intros G Hpc Hcl. unfold exec. destruct (enabled' s t); cbn [negb]; [|discriminate].
+  rewrite Hpc, G, Hcl. intros H; inversion H; subst; clear H. cbn. repeat split; reflexivity.
 Qed.
 
 (* ---------------------------------------------------------------- no panic *)
@@ -510,16 +552,18 @@ Proof.
   { apply enabled_lt. unfold exec in E. destruct (enabled' s t); [reflexivity|discriminate]. }
   intros t2. destruct (Nat.eq_dec t2 t) as [->|N].
   - destruct (exec_spec _ _ _ _ E) as
-      [th' _ _ _ _ _ _ Ht _ Hnp _ _
-      |p th' c free' objs0 _ _ _ _ _ Ht _ _ _ Hpan
-      |c w st' evs closes th' _ _ _ _ _ _ _ _ Ht _ _ Hnp
-      |c k th' _ _ _ _ _ _ Ht _ Hnp]; rewrite (thr_upd_eq _ _ _ _ Lt Ht); try assumption.
+      [th' _ _ _ _ _ _ Ht _ Hnp _ _ _
+      |p th' c free' objs0 _ _ _ _ _ Ht _ _ _ Hpan _
+      |c w st' evs closes th' _ _ _ _ _ _ _ _ Ht _ _ Hnp _
+      |c k th' _ _ _ _ _ _ Ht _ Hnp _
+      |c age rest th' _ _ _ _ _ _ Ht _ Hnp _]; rewrite (thr_upd_eq _ _ _ _ Lt Ht); try assumption.
     intros Hp. destruct (Hpan Hp) as [H1 H2]. rewrite H1, H2 in G. discriminate.
   - destruct (exec_spec _ _ _ _ E) as
-      [th' _ _ _ _ _ _ Ht _ _ _ _
-      |p th' c free' objs0 _ _ _ _ _ Ht _ _ _ _
-      |c w st' evs closes th' _ _ _ _ _ _ _ _ Ht _ _ _
-      |c k th' _ _ _ _ _ _ Ht _ _]; rewrite (thr_upd_ne _ _ _ _ _ N Ht); apply I.
+      [th' _ _ _ _ _ _ Ht _ _ _ _ _
+      |p th' c free' objs0 _ _ _ _ _ Ht _ _ _ _ _
+      |c w st' evs closes th' _ _ _ _ _ _ _ _ Ht _ _ _ _
+      |c k th' _ _ _ _ _ _ Ht _ _ _
+      |c age rest th' _ _ _ _ _ _ Ht _ _ _]; rewrite (thr_upd_ne _ _ _ _ _ N Ht); apply I.
 Qed.
 
 Lemma no_panic_reachable g progs s :
@@ -534,10 +578,11 @@ Lemma mutex_step g s t s' : exec' g s t = Some s' ->
 Proof.
   intros E t' sid c0 e Hin.
   destruct (exec_spec _ _ _ _ E) as
-    [th' _ _ _ _ _ Hl _ _ _ _ _
-    |p th' c free' objs0 _ _ _ _ _ _ _ Hl _ _
-    |c w st' evs closes th' Hpc Hlk Hw _ _ _ _ _ _ _ _ _
-    |c k th' _ _ _ _ _ Hl _ _ _].
+    [th' _ _ _ _ _ Hl _ _ _ _ _ _
+    |p th' c free' objs0 _ _ _ _ _ _ _ Hl _ _ _
+    |c w st' evs closes th' Hpc Hlk Hw _ _ _ _ _ _ _ _ _ _
+    |c k th' _ _ _ _ _ Hl _ _ _ _
+    |c age rest th' _ _ _ _ _ Hl _ _ _ _].
   - left. rewrite Hl in Hin. exact Hin.
   - left. destruct Hl as [Hl|Hl]; rewrite Hl in Hin; cbn in Hin.
     + destruct Hin as [H|H]; [discriminate|exact H].
@@ -546,7 +591,7 @@ Proof.
                     In (ECall t' sid c0 e) l \/ (t' = t /\ sid = c_stream (obj' s c) /\ c0 = c)).
     { intros l H. apply in_app_or in H as [H|H]; [right|left; exact H].
       apply in_rev in H. apply in_map_iff in H as [x [Hx _]]. inversion Hx; subst. auto. }
-    destruct Hw as [[p [fwd [-> [_ Hl]]]]|[rest [-> [_ Hl]]]]; rewrite Hl in Hin.
+    destruct Hw as [[p [fwd [-> [_ Hl]]]]|[age [rest [-> [_ Hl]]]]]; rewrite Hl in Hin.
     + apply Hnew in Hin as [H|[-> [-> ->]]].
       * destruct H as [H|H]; [discriminate|left; exact H].
       * right. repeat split; try assumption. eexists; eassumption.
@@ -554,11 +599,12 @@ Proof.
       * left; exact H.
       * right. repeat split; try assumption. eexists; eassumption.
   - left. rewrite Hl in Hin. exact Hin.
+  - left. rewrite Hl in Hin. exact Hin.
 Qed.
 
 (* ---------------------------------------------------------------- schedules reach reachable states *)
 Lemma run_sched_reachable g progs s raced sched :
-  reachable g progs s -> reachable g progs (fst (run_sched cstate cinit cclosed process flush g s raced sched)).
+  reachable g progs s -> reachable g progs (fst (run_sched cstate cinit cclosed creset process flush ctrail g s raced sched)).
 Proof.
   revert s raced. induction sched as [|t r IH]; intros s raced R; cbn; [exact R|].
   destruct (exec' g s t) as [s'|] eqn:E; [|apply IH; exact R].
@@ -602,22 +648,29 @@ Proof.
     try tauto;
     try (intros [<-|[]]; right; left; eapply lookup_in; eassumption);
     try (intros [<-|[]]; right; right; eexists; split; reflexivity).
-  - destruct w as [p fwd|rest].
+  - destruct w as [p fwd|age rest].
     + destruct (match g_pkg g with Tcp => cclosed (c_st (obj' s c)) | Rsm => false end).
       * intros H; inversion H; subst; clear H. intros x. rewrite Hthr. cbn. tauto.
       * destruct (process (c_st (obj' s c)) fwd p) as [[st' evs] closes].
         destruct closes; intros H; inversion H; subst; clear H; intros x; rewrite Hthr; cbn.
         -- auto.
         -- rewrite rest_next_pc. tauto.
-    + destruct (flush (c_st (obj' s c))) as [[st' evs] closes].
-      destruct closes; intros H; inversion H; subst; clear H; intros x; rewrite Hthr; cbn [t_pc].
-      * cbn. auto.
-      * intros Hx. apply rest_cont_flush in Hx. left. cbn. auto.
+    + destruct (match g_pkg g with Tcp => cclosed (c_st (obj' s c)) | Rsm => false end).
+      * intros H; inversion H; subst; clear H. intros x. rewrite Hthr. cbn [t_pc].
+        intros Hx. apply rest_cont_flush in Hx. left. cbn. auto.
+      * destruct (flush age (c_st (obj' s c))) as [[st' evs] closes].
+        destruct (is_rsm g && g_trail g && ctrail age st');
+        destruct closes; intros H; inversion H; subst; clear H; intros x; rewrite Hthr; cbn [t_pc];
+          try (cbn; auto; fail);
+          intros Hx; apply rest_cont_flush in Hx; left; cbn; auto.
   - intros H; inversion H; subst; clear H. intros x. rewrite Hthr. cbn [t_pc].
-    destruct k; cbn.
+    destruct k as [|a r [|]]; cbn.
     + rewrite rest_next_pc. tauto.
+    + auto.
     + intros Hx. apply rest_cont_flush in Hx. auto.
   - intros H; inversion H; subst; clear H. intros x Hx. right; left. eapply do_lookup_rest; eassumption.
+  - intros H; inversion H; subst; clear H. intros x. rewrite Hthr. cbn [t_pc].
+    intros Hx. apply rest_cont_flush in Hx. left. cbn. auto.
   - discriminate.
   - discriminate.
 Qed.
@@ -657,22 +710,50 @@ Hypothesis Hm : machine_ok.
 
 Lemma proc_closed st h p st' ev b : process st h p = (st', ev, b) ->
   (b = true -> cclosed st = false /\ cclosed st' = true) /\ (cclosed st = true -> cclosed st' = true).
-Proof. intros H. destruct Hm as [_ [Hp _]]. destruct (Hp _ _ _ _ _ _ H) as [A [B _]]. auto. Qed.
-Lemma flush_closed st st' ev b : flush st = (st', ev, b) ->
+Proof. intros H. destruct Hm as [_ [_ [Hp _]]]. destruct (Hp _ _ _ _ _ _ H) as [A [B _]]. auto. Qed.
+Lemma flush_closed a st st' ev b : flush a st = (st', ev, b) ->
   (b = true -> cclosed st = false /\ cclosed st' = true) /\ (cclosed st = true -> cclosed st' = true).
-Proof. intros H. destruct Hm as [_ [_ Hf]]. destruct (Hf _ _ _ _ H) as [A [B _]]. auto. Qed.
+Proof. intros H. destruct Hm as [_ [_ [_ Hf]]]. destruct (Hf _ _ _ _ _ H) as [A [B _]]. auto. Qed.
 
-Lemma inv_pool_step g s t s' : inv_pool g s -> exec' g s t = Some s' -> inv_pool g s'.
+(* reassembly's second remove() is never reached when the configuration does not have it *)
+Definition no_trail (s : State) : Prop := forall t, trail_pc (t_pc (thr s t)) = false.
+Lemma no_trail_init progs : no_trail (init cstate progs).
+Proof. intros t. destruct (init_pc progs t) as [E|E]; rewrite E; reflexivity. Qed.
+Lemma no_trail_step g s t s' : trail_cfg g = false -> no_trail s -> exec' g s t = Some s' -> no_trail s'.
 Proof.
-  intros I E. assert (Lt : t < length (s_thr s)).
+  intros G I E. assert (Lt : t < length (s_thr s)).
+  { apply enabled_lt. unfold exec in E. destruct (enabled' s t); [reflexivity|discriminate]. }
+  intros t2. destruct (Nat.eq_dec t2 t) as [->|N].
+  - destruct (exec_spec _ _ _ _ E) as
+      [th' _ _ _ _ _ _ Ht _ _ _ _ Htr
+      |p th' c free' objs0 _ _ _ _ _ Ht _ _ _ _ Htr
+      |c w st' evs closes th' _ _ _ _ _ _ _ _ Ht _ _ _ Htr
+      |c k th' _ _ _ _ _ _ Ht _ _ Htr
+      |c age rest th' _ _ _ _ _ _ Ht _ _ Htr]; rewrite (thr_upd_eq _ _ _ _ Lt Ht); try assumption.
+    + destruct (trail_pc (t_pc th')); [|reflexivity]. rewrite (Htr eq_refl) in G. discriminate.
+    + destruct (trail_pc (t_pc th')); [|reflexivity]. rewrite (I t) in Htr. symmetry. exact (Htr eq_refl).
+  - destruct (exec_spec _ _ _ _ E) as
+      [th' _ _ _ _ _ _ Ht _ _ _ _ _
+      |p th' c free' objs0 _ _ _ _ _ Ht _ _ _ _ _
+      |c w st' evs closes th' _ _ _ _ _ _ _ _ Ht _ _ _ _
+      |c k th' _ _ _ _ _ _ Ht _ _ _
+      |c age rest th' _ _ _ _ _ _ Ht _ _ _]; rewrite (thr_upd_ne _ _ _ _ _ N Ht); apply I.
+Qed.
+Lemma no_trail_reachable g progs s : trail_cfg g = false -> reachable g progs s -> no_trail s.
+Proof. intros G. induction 1; [apply no_trail_init|eapply no_trail_step; eassumption]. Qed.
+
+Lemma inv_pool_step g s t s' : no_trail s -> inv_pool g s -> exec' g s t = Some s' -> inv_pool g s'.
+Proof.
+  intros NT I E. assert (Lt : t < length (s_thr s)).
   { apply enabled_lt. unfold exec in E. destruct (enabled' s t); [reflexivity|discriminate]. }
   pose proof (exec_rest _ _ _ _ E) as Hrest.
   destruct I as [Ik Iv Ie Ir If Ife Irm Irg].
   destruct (exec_spec _ _ _ _ E) as
-    [th' Hc Hf Ho Hn Hk Hl Ht Hnr Hnp Hnr0 Hnm0
-    |p th' c free' objs0 Hpc Hpop Hf Ho Hn Ht Hnr Hl Hcn Hpan
-    |c w st' evs closes th' Hpc Hlk Hw Ho Hc Hf Hn Hk Ht Hcl Hncl Hnp
-    |c k th' Hpc Ho Hcf Hn Hk Hl Ht Hnr Hnp].
+    [th' Hc Hf Ho Hn Hk Hl Ht Hnr Hnp Hnr0 Hnm0 Htr
+    |p th' c free' objs0 Hpc Hpop Hf Ho Hn Ht Hnr Hl Hcn Hpan Htr
+    |c w st' evs closes th' Hpc Hlk Hw Ho Hc Hf Hn Hk Ht Hcl Hncl Hnp Htr
+    |c k th' Hpc Ho Hcf Hn Hk Hl Ht Hnr Hnp Htr
+    |c age rest th' Hpc Ho Hcf Hn Hk Hl Ht Hnr Hnp Htr].
   - (* local step *)
     assert (Hobj : forall x, obj' s' x = obj' s x) by (intros x; apply obj_same; assumption).
     constructor; try (rewrite ?Hc, ?Hf, ?Ho; assumption).
@@ -694,7 +775,7 @@ Proof.
     assert (Hlen' : length (s_objs s') = length objs0) by (rewrite Ho; apply upd_length).
     assert (Hother : forall x, x <> c -> obj' s' x = obj' s x)
       by (intros x N; eapply miss_obj_other; eassumption).
-    assert (Hnew : obj' s' c = mkConn (p_key p) (s_nsid s) cinit (c_lock (nth c objs0 blank')))
+    assert (Hnew : obj' s' c = mkConn (p_key p) (s_nsid s) (creset p) (c_lock (nth c objs0 blank')))
       by (unfold obj; rewrite Ho; apply nth_upd_eq; assumption).
     assert (Hcnot : ~ In c (map snd (s_conns s))).
     { destruct (pop_cases _ _ _ _ Hpop) as [[Ef _]|[_ [_ [-> _]]]].
@@ -768,8 +849,8 @@ Proof.
     assert (Hlen' : length (s_objs s') = length (s_objs s)) by (rewrite Ho; apply upd_length).
     assert (Hcl2 : (closes = true -> cclosed (c_st (obj' s c)) = false /\ cclosed st' = true) /\
                    (cclosed (c_st (obj' s c)) = true -> cclosed st' = true)).
-    { destruct Hw as [[p [fwd [_ [Hp _]]]]|[rest [_ [Hp _]]]];
-        [apply (proc_closed _ _ _ _ _ _ Hp)|apply (flush_closed _ _ _ _ Hp)]. }
+    { destruct Hw as [[p [fwd [_ [Hp _]]]]|[age [rest [_ [Hp _]]]]];
+        [apply (proc_closed _ _ _ _ _ _ Hp)|apply (flush_closed _ _ _ _ _ Hp)]. }
     destruct Hcl2 as [Hcl2 Hcl3].
     assert (Hkey : forall x, c_key (obj' s' x) = c_key (obj' s x)).
     { intros x. destruct (Nat.eq_dec x c) as [->|N]; [rewrite Hnew; reflexivity|rewrite Hother; auto]. }
@@ -846,10 +927,14 @@ Proof.
       * intros t2 c2 k2 Hp2. destruct (Hpcs _ _ _ Hp2) as [N [Hp3 Nc]].
         destruct (Irm _ _ _ Hp3) as [A [B C]]. rewrite Hother by assumption. split; [|auto].
         destruct Hf as [Hf|[Hf _]]; rewrite Hf; [intros [H|H]; [congruence|contradiction]|assumption].
+  - exfalso. specialize (NT t). rewrite Hpc in NT. discriminate.
 Qed.
 
-Lemma inv_pool_reachable g progs s : reachable g progs s -> inv_pool g s.
-Proof. induction 1; [apply inv_pool_init|eapply inv_pool_step; eassumption]. Qed.
+Lemma inv_pool_reachable g progs s : trail_cfg g = false -> reachable g progs s -> inv_pool g s.
+Proof.
+  intros G. induction 1; [apply inv_pool_init|].
+  eapply inv_pool_step; try eassumption. eapply no_trail_reachable; eassumption.
+Qed.
 
 (* ---------------------------------------------------------------- invariant: streams and completion *)
 Definition completes' (sid : nat) (l : list event) : nat := completes sid l.
@@ -911,10 +996,11 @@ Lemma inv_str_step g s t s' : inv_pool g s -> inv_str s -> exec' g s t = Some s'
 Proof.
   intros IP I E. destruct I as [Ilt Iinj Ilog Ionce].
   destruct (exec_spec _ _ _ _ E) as
-    [th' Hc Hf Ho Hn Hk Hl Ht Hnr Hnp Hnr0 Hnm0
-    |p th' c free' objs0 Hpc Hpop Hf Ho Hn Ht Hnr Hl Hcn Hpan
-    |c w st' evs closes th' Hpc Hlk Hw Ho Hc Hf Hn Hk Ht Hcl Hncl Hnp
-    |c k th' Hpc Ho Hcf Hn Hk Hl Ht Hnr Hnp].
+    [th' Hc Hf Ho Hn Hk Hl Ht Hnr Hnp Hnr0 Hnm0 Htr
+    |p th' c free' objs0 Hpc Hpop Hf Ho Hn Ht Hnr Hl Hcn Hpan Htr
+    |c w st' evs closes th' Hpc Hlk Hw Ho Hc Hf Hn Hk Ht Hcl Hncl Hnp Htr
+    |c k th' Hpc Ho Hcf Hn Hk Hl Ht Hnr Hnp Htr
+    |c age rest th' Hpc Ho Hcf Hn Hk Hl Ht Hnr Hnp Htr].
   - assert (Hobj : forall x, obj' s' x = obj' s x) by (intros x; apply obj_same; assumption).
     apply (inv_str_ext s s'); try assumption; try (intros x; rewrite Hobj; reflexivity);
       [rewrite Ho; reflexivity|constructor; assumption].
@@ -923,7 +1009,7 @@ Proof.
     assert (Hlen' : length (s_objs s') = length objs0) by (rewrite Ho; apply upd_length).
     assert (Hother : forall x, x <> c -> obj' s' x = obj' s x)
       by (intros x N; eapply miss_obj_other; eassumption).
-    assert (Hnew : c_stream (obj' s' c) = s_nsid s /\ c_st (obj' s' c) = cinit).
+    assert (Hnew : c_stream (obj' s' c) = s_nsid s /\ c_st (obj' s' c) = creset p).
     { unfold obj; rewrite Ho, nth_upd_eq by assumption. split; reflexivity. }
     assert (Hold : forall x, x < length (s_objs s') -> x <> c -> x < length (s_objs s)).
     { intros x L N. rewrite Hlen' in L. destruct (pop_cases _ _ _ _ Hpop) as [[_ ->]|[_ [_ [Ec ->]]]]; [assumption|].
@@ -960,13 +1046,13 @@ Proof.
     assert (Hcl2 : (closes = true -> cclosed (c_st (obj' s c)) = false /\ cclosed st' = true) /\
                    (cclosed (c_st (obj' s c)) = true -> cclosed st' = true) /\
                    count_complete evs = (if closes then 1 else 0)).
-    { destruct Hm as [_ [Hp Hfl]].
-      destruct Hw as [[p [fwd [_ [Hpr _]]]]|[rest [_ [Hpr _]]]];
-        [destruct (Hp _ _ _ _ _ _ Hpr) as [A [B C]]|destruct (Hfl _ _ _ _ Hpr) as [A [B C]]]; auto. }
+    { destruct Hm as [_ [_ [Hp Hfl]]].
+      destruct Hw as [[p [fwd [_ [Hpr _]]]]|[age [rest [_ [Hpr _]]]]];
+        [destruct (Hp _ _ _ _ _ _ Hpr) as [A [B C]]|destruct (Hfl _ _ _ _ _ Hpr) as [A [B C]]]; auto. }
     destruct Hcl2 as [Hcl2 [Hcl3 Hcnt]].
     assert (Hcomp : forall sid, completes sid (s_log s') =
                      (if Nat.eqb sg sid then count_complete evs else 0) + completes sid (s_log s)).
-    { intros sid. destruct Hw as [[p [fwd [_ [_ Hl]]]]|[rest [_ [_ Hl]]]]; rewrite Hl, completes_app, completes_rev, completes_calls.
+    { intros sid. destruct Hw as [[p [fwd [_ [_ Hl]]]]|[age [rest [_ [_ Hl]]]]]; rewrite Hl, completes_app, completes_rev, completes_calls.
       - change (EProc t p c (c_key (obj' s c)) sg :: s_log s) with ([EProc t p c (c_key (obj' s c)) sg] ++ s_log s).
         rewrite completes_app. cbn. lia.
       - reflexivity. }
@@ -975,7 +1061,7 @@ Proof.
     + intros c1 c2 L1 L2. rewrite !Hstr. apply Iinj; lia.
     + intros t0 sid c0 e Hin. rewrite Hn.
       assert (In (ECall t0 sid c0 e) (s_log s) \/ sid = sg).
-      { destruct Hw as [[p [fwd [_ [_ Hl]]]]|[rest [_ [_ Hl]]]]; rewrite Hl in Hin;
+      { destruct Hw as [[p [fwd [_ [_ Hl]]]]|[age [rest [_ [_ Hl]]]]]; rewrite Hl in Hin;
           apply in_app_or in Hin as [H|H].
         - right. apply in_rev in H. apply in_map_iff in H as [x [Hx _]]. inversion Hx; reflexivity.
         - destruct H as [H|H]; [discriminate|left; exact H].
@@ -1005,11 +1091,13 @@ Proof.
     assert (Hst : forall x, c_st (obj' s' x) = c_st (obj' s x)).
     { intros x. destruct (Nat.eq_dec x c) as [->|N]; [rewrite Hnew; reflexivity|rewrite Hother; auto]. }
     apply (inv_str_ext s s'); try assumption. constructor; assumption.
+  - apply (inv_str_ext s s'); try assumption; try (intros x; rewrite (obj_same _ _ _ Ho); reflexivity);
+      [rewrite Ho; reflexivity|constructor; assumption].
 Qed.
 
-Lemma inv_str_reachable g progs s : reachable g progs s -> inv_str s.
+Lemma inv_str_reachable g progs s : trail_cfg g = false -> reachable g progs s -> inv_str s.
 Proof.
-  induction 1; [apply inv_str_init|].
+  intros G. induction 1; [apply inv_str_init|].
   eapply inv_str_step; try eassumption. eapply inv_pool_reachable; eassumption.
 Qed.
 
@@ -1037,35 +1125,38 @@ Proof.
   assert (Hthr : forall c f (o : list Conn) n k th l tg,
      thr (mkSt c f o n k (set_thr cstate s t th) l tg) t = th).
   { intros. unfold thr; cbn [s_thr]. unfold set_thr. apply nth_upd_eq; assumption. }
+  assert (Hcfw : forall a r prog c p fwd X, cont_flush a r prog = PWant c (WPkt p fwd) -> X).
+  { intros a r prog c p fwd X. unfold cont_flush. destruct r; [destruct prog|]; discriminate. }
   destruct (t_pc (thr s t)) eqn:Epc.
-  - destruct (t_prog (thr s t)) as [|[p|] rest] eqn:Epr.
+  - destruct (t_prog (thr s t)) as [|[p|age] rest] eqn:Epr.
     + intros H; inversion H; subst; clear H. intros c p0 fwd. rewrite Hthr. cbn. discriminate.
     + destruct (ignored g p); intros H; inversion H; subst; clear H; intros c p0 fwd.
       * rewrite Hthr. cbn. destruct rest; discriminate.
       * intros Hx. left. destruct (do_lookup_want _ _ _ _ _ _ _ _ Lt Hx) as [-> HL]. exact HL.
-    + intros H; inversion H; subst; clear H. intros c p0 fwd. rewrite Hthr. cbn [t_pc].
-      unfold cont_flush. destruct (sort_ids (map snd (s_conns s))); [destruct rest|]; discriminate.
+    + intros H; inversion H; subst; clear H. intros c p0 fwd. rewrite Hthr. cbn [t_pc]. apply Hcfw.
   - unfold pop. destruct (s_free s) as [|c0 f] eqn:Ef; cbn [fst];
     (destruct (lookup g (s_conns s) (p_key p)) as [[c2 fwd2]|] eqn:EL;
      [match goal with |- context[if ?b then _ else _] => destruct b end|]);
     intros H; inversion H; subst; clear H; intros c p0 fwd; rewrite Hthr; cbn [t_pc];
     try discriminate;
     intros Hx; inversion Hx; subst; auto.
-  - destruct w as [p fwd0|rest].
+  - destruct w as [p fwd0|age rest].
     + destruct (match g_pkg g with Tcp => cclosed (c_st (obj' s c)) | Rsm => false end).
       * intros H; inversion H; subst; clear H. intros c1 p0 fwd. rewrite Hthr. cbn. discriminate.
       * destruct (process (c_st (obj' s c)) fwd0 p) as [[st' evs] closes].
         destruct closes; intros H; inversion H; subst; clear H; intros c1 p0 fwd; rewrite Hthr; cbn [t_pc];
           [discriminate|destruct (t_prog (thr s t)); discriminate].
-    + destruct (flush (c_st (obj' s c))) as [[st' evs] closes].
-      destruct closes; intros H; inversion H; subst; clear H; intros c1 p0 fwd; rewrite Hthr; cbn [t_pc];
-        [discriminate|].
-      unfold cont_flush. destruct rest; [destruct (t_prog (thr s t))|]; discriminate.
+    + destruct (match g_pkg g with Tcp => cclosed (c_st (obj' s c)) | Rsm => false end).
+      * intros H; inversion H; subst; clear H. intros c1 p0 fwd. rewrite Hthr. cbn [t_pc]. apply Hcfw.
+      * destruct (flush age (c_st (obj' s c))) as [[st' evs] closes].
+        destruct (is_rsm g && g_trail g && ctrail age st');
+        destruct closes; intros H; inversion H; subst; clear H; intros c1 p0 fwd; rewrite Hthr; cbn [t_pc];
+          try discriminate; apply Hcfw.
   - intros H; inversion H; subst; clear H. intros c1 p0 fwd. rewrite Hthr. cbn [t_pc].
-    destruct k as [|rest]; [destruct (t_prog (thr s t)); discriminate|].
-    unfold cont_flush. destruct rest; [destruct (t_prog (thr s t))|]; discriminate.
+    destruct k as [|a r [|]]; [destruct (t_prog (thr s t)); discriminate|discriminate|apply Hcfw].
   - intros H; inversion H; subst; clear H. intros c1 p0 fwd Hx. left.
     destruct (do_lookup_want _ _ _ _ _ _ _ _ Lt Hx) as [-> HL]. exact HL.
+  - intros H; inversion H; subst; clear H. intros c1 p0 fwd. rewrite Hthr. cbn [t_pc]. apply Hcfw.
   - discriminate.
   - discriminate.
 Qed.
@@ -1099,22 +1190,23 @@ Proof.
 Qed.
 
 Lemma inv_nr_step g s t s' :
-  g_recycle g = false -> inv_pool g s -> inv_nr g s -> exec' g s t = Some s' -> inv_nr g s'.
+  g_recycle g = false -> no_trail s -> inv_pool g s -> inv_nr g s -> exec' g s t = Some s' -> inv_nr g s'.
 Proof.
-  intros G IP I E. assert (Lt : t < length (s_thr s)).
+  intros G NT IP I E. assert (Lt : t < length (s_thr s)).
   { apply enabled_lt. unfold exec in E. destruct (enabled' s t); [reflexivity|discriminate]. }
   pose proof (exec_want _ _ _ _ E) as Hwant.
-  pose proof (inv_pool_step _ _ _ _ IP E) as IP'.
+  pose proof (inv_pool_step _ _ _ _ NT IP E) as IP'.
   destruct I as [Nf Nw Nl].
   assert (Hlk : forall c p fwd, lookup g (s_conns s) (p_key p) = Some (c, fwd) ->
             c_key (obj' s c) = key_for p fwd /\ (fwd = false -> is_rsm g = true) /\ c < length (s_objs s)).
   { intros c p fwd HL. destruct (lookup_key _ _ _ _ _ HL) as [Hin Hr].
     destruct (ip_ent _ _ IP _ _ Hin) as [A B]. unfold key_for. auto. }
   destruct (exec_spec _ _ _ _ E) as
-    [th' Hc Hf Ho Hn Hk Hl Ht Hnr Hnp Hnr0 Hnm0
-    |p th' c free' objs0 Hpc Hpop Hf Ho Hn Ht Hnr Hl Hcn Hpan
-    |c w st' evs closes th' Hpc Hlk2 Hw Ho Hc Hf Hn Hk Ht Hcl Hncl Hnp
-    |c k th' Hpc Ho Hcf Hn Hk Hl Ht Hnr Hnp].
+    [th' Hc Hf Ho Hn Hk Hl Ht Hnr Hnp Hnr0 Hnm0 Htr
+    |p th' c free' objs0 Hpc Hpop Hf Ho Hn Ht Hnr Hl Hcn Hpan Htr
+    |c w st' evs closes th' Hpc Hlk2 Hw Ho Hc Hf Hn Hk Ht Hcl Hncl Hnp Htr
+    |c k th' Hpc Ho Hcf Hn Hk Hl Ht Hnr Hnp Htr
+    |c age rest th' Hpc Ho Hcf Hn Hk Hl Ht Hnr Hnp Htr].
   - assert (Hobj : forall x, obj' s' x = obj' s x) by (intros x; apply obj_same; assumption).
     constructor.
     + rewrite Hf; assumption.
@@ -1157,7 +1249,7 @@ Proof.
         destruct (Hlk _ _ _ HL) as [A [B _]]. auto.
       * rewrite (thr_upd_ne _ _ _ _ _ N Ht) in Hp2. eauto.
     + intros t0 p0 c0 ck sid Hin.
-      destruct Hw as [[p [fwd [Ew [_ Hl]]]]|[rest [_ [_ Hl]]]]; rewrite Hl in Hin; apply in_app_or in Hin as [H|H].
+      destruct Hw as [[p [fwd [Ew [_ Hl]]]]|[age [rest [_ [_ Hl]]]]]; rewrite Hl in Hin; apply in_app_or in Hin as [H|H].
       * apply in_rev in H. apply in_map_iff in H as [x [Hx _]]. discriminate.
       * destruct H as [H|H]; [|eauto]. inversion H; subst.
         destruct (Nw _ _ _ _ Hpc) as [A B]. rewrite A. unfold key_for. destruct fwd; [left; reflexivity|right; auto].
@@ -1179,18 +1271,22 @@ Proof.
         destruct (Hlk _ _ _ HL) as [A [B _]]. auto.
       * rewrite (thr_upd_ne _ _ _ _ _ N Ht) in Hp2. eauto.
     + intros t0 p c0 ck sid Hin. rewrite Hl in Hin. eauto.
+  - exfalso. specialize (NT t). rewrite Hpc in NT. discriminate.
 Qed.
 
-Lemma inv_nr_reachable g progs s : g_recycle g = false -> reachable g progs s -> inv_nr g s.
+Lemma inv_nr_reachable g progs s :
+  trail_cfg g = false -> g_recycle g = false -> reachable g progs s -> inv_nr g s.
 Proof.
-  intros G. induction 1; [apply inv_nr_init|].
-  eapply inv_nr_step; try eassumption. eapply inv_pool_reachable; eassumption.
+  intros GT G. induction 1; [apply inv_nr_init|].
+  eapply inv_nr_step; try eassumption.
+  - eapply no_trail_reachable; eassumption.
+  - eapply inv_pool_reachable; eassumption.
 Qed.
 
 Lemma right_stream_norecycle g progs s :
-  g_recycle g = false -> reachable g progs s -> chk_right_stream g s = true.
+  trail_cfg g = false -> g_recycle g = false -> reachable g progs s -> chk_right_stream g s = true.
 Proof.
-  intros G R. pose proof (inv_nr_reachable _ _ _ G R) as [_ _ Nl].
+  intros GT G R. pose proof (inv_nr_reachable _ _ _ GT G R) as [_ _ Nl].
   unfold chk_right_stream. apply forallb_forall. intros e Hin.
   destruct e as [| | t p c ck sid |]; try reflexivity. cbn.
   destruct (Nl _ _ _ _ _ Hin) as [->|[Gr ->]].
@@ -1242,15 +1338,16 @@ Proof.
     intros [<-|[<-|[]]]; right; exists c; cbn; auto.
   - intros [<-|[<-|[]]]; left; cbn; (split; [auto|discriminate]).
   - intros [<-|[]]. left. cbn. split; [auto|discriminate].
+  - intros [<-|[<-|[]]]; left; cbn; (split; [auto|discriminate]).
   - intros [].
   - intros [].
 Qed.
 
 Lemma lockset_norecycle g progs s :
-  g_recycle g = false -> reachable g progs s -> has_race cstate cinit g s = false.
+  trail_cfg g = false -> g_recycle g = false -> reachable g progs s -> has_race cstate cinit g s = false.
 Proof.
-  intros G R. pose proof (inv_pool_reachable _ _ _ R) as IP.
-  pose proof (nr_free _ _ (inv_nr_reachable _ _ _ G R)) as Nf.
+  intros GT G R. pose proof (inv_pool_reachable _ _ _ GT R) as IP.
+  pose proof (nr_free _ _ (inv_nr_reachable _ _ _ GT G R)) as Nf.
   unfold has_race. apply not_true_iff_false. intros H.
   apply existsb_exists in H as [t1 [_ H]]. apply existsb_exists in H as [t2 [_ H]].
   unfold race_pair in H. apply andb_true_iff in H as [_ H].
@@ -1281,7 +1378,7 @@ Lemma subseq_drop {A} (a b : list A) x : subseq (a ++ b) (a ++ x :: b).
 Proof. induction a; cbn; [constructor; apply subseq_refl|constructor; assumption]. Qed.
 
 Definition pkts_of (prog : list op) : list packet :=
-  flat_map (fun o => match o with OPkt p => [p] | OFlush => [] end) prog.
+  flat_map (fun o => match o with OPkt p => [p] | OFlush _ => [] end) prog.
 Definition cur_pkt (p : pc) : list packet :=
   match p with
   | PMiss p => [p]
@@ -1319,7 +1416,7 @@ Proof.
      thr (mkSt c f o n k (set_thr cstate s t th) l tg) t = th).
   { intros. unfold thr; cbn [s_thr]. unfold set_thr. apply nth_upd_eq; assumption. }
   assert (Hnp : forall prog, cur_pkt (next_pc prog) = []) by (intros []; reflexivity).
-  assert (Hcf : forall r prog, cur_pkt (cont_flush r prog) = []) by (intros [] []; reflexivity).
+  assert (Hcf : forall a r prog, cur_pkt (cont_flush a r prog) = []) by (intros a [] []; reflexivity).
   assert (Hlk : forall p prog, order_line (do_lookup cstate g s t p prog) t = procs t (s_log s) ++ p :: pkts_of prog \/
                                order_line (do_lookup cstate g s t p prog) t = procs t (s_log s) ++ pkts_of prog).
   { intros p prog. unfold order_line, do_lookup. rewrite Hthr. cbn [s_log t_pc t_prog].
@@ -1327,7 +1424,7 @@ Proof.
     destruct (end_flag g p); cbn [t_pc t_prog]; [right; rewrite Hnp; reflexivity|left; reflexivity]. }
   assert (HX : order_line s t = procs t (s_log s) ++ cur_pkt (t_pc (thr s t)) ++ pkts_of (t_prog (thr s t))) by reflexivity.
   rewrite HX; clear HX. destruct (t_pc (thr s t)) eqn:Epc.
-  - destruct (t_prog (thr s t)) as [|[p|] rest] eqn:Epr.
+  - destruct (t_prog (thr s t)) as [|[p|age] rest] eqn:Epr.
     + intros H; inversion H; subst; clear H. split; [|reflexivity]. left. unfold order_line. rewrite Hthr. reflexivity.
     + destruct (ignored g p); intros H; inversion H; subst; clear H; (split; [|reflexivity]).
       * right; left. exists (procs t (s_log s)), p, (pkts_of rest). split; [reflexivity|].
@@ -1348,7 +1445,7 @@ Proof.
     rewrite ?(proj1 (Hlog t (s_log s))), ?(proj2 (Hlog t (s_log s)));
     first [ left; reflexivity
           | right; right; exists (p :: pkts_of (t_prog (thr s t))); cbn; rewrite ?app_nil_r; reflexivity ].
-  - destruct w as [p fwd0|rest].
+  - destruct w as [p fwd0|age rest].
     + destruct (match g_pkg g with Tcp => cclosed (c_st (obj' s c)) | Rsm => false end).
       * intros H; inversion H; subst; clear H. split; [|reflexivity]. left.
         unfold order_line. rewrite Hthr. reflexivity.
@@ -1365,18 +1462,24 @@ Proof.
                     destruct (Nat.eqb t t2) eqn:Eq; [apply Nat.eqb_eq in Eq; congruence|apply app_nil_r]]);
           left; unfold order_line; rewrite Hthr; cbn [s_log t_pc t_prog]; rewrite Hl, Nat.eqb_refl;
           rewrite ?Hnp; cbn [cur_pkt]; rewrite <- app_assoc; reflexivity.
-    + destruct (flush (c_st (obj' s c))) as [[st' evs] closes].
-      assert (Hl : forall t2, procs t2 (rev (map (ECall t (c_stream (obj' s c)) c) evs) ++ s_log s) = procs t2 (s_log s)).
-      { intros t2. rewrite procs_app, procs_calls, app_nil_r. reflexivity. }
-      destruct closes; intros H; inversion H; subst; clear H;
-        (split; [|intros t2 _; cbn [s_log]; apply Hl]);
-        left; unfold order_line; rewrite Hthr; cbn [s_log t_pc t_prog]; rewrite Hl, ?Hcf; reflexivity.
+    + destruct (match g_pkg g with Tcp => cclosed (c_st (obj' s c)) | Rsm => false end).
+      * intros H; inversion H; subst; clear H. split; [|reflexivity]. left.
+        unfold order_line. rewrite Hthr. cbn [s_log t_pc t_prog]. rewrite Hcf. reflexivity.
+      * destruct (flush age (c_st (obj' s c))) as [[st' evs] closes].
+        assert (Hl : forall t2, procs t2 (rev (map (ECall t (c_stream (obj' s c)) c) evs) ++ s_log s) = procs t2 (s_log s)).
+        { intros t2. rewrite procs_app, procs_calls, app_nil_r. reflexivity. }
+        destruct (is_rsm g && g_trail g && ctrail age st');
+        destruct closes; intros H; inversion H; subst; clear H;
+          (split; [|intros t2 _; cbn [s_log]; apply Hl]);
+          left; unfold order_line; rewrite Hthr; cbn [s_log t_pc t_prog]; rewrite Hl, ?Hcf; reflexivity.
   - intros H; inversion H; subst; clear H. split; [|reflexivity]. left.
     unfold order_line. rewrite Hthr. cbn [s_log t_pc t_prog].
-    destruct k; rewrite ?Hnp, ?Hcf; reflexivity.
+    destruct k as [|a r [|]]; rewrite ?Hnp, ?Hcf; reflexivity.
   - intros H; inversion H; subst; clear H. split; [|reflexivity].
     destruct (Hlk p (t_prog (thr s t))) as [H|H]; rewrite H; [left; reflexivity|].
     right; left. exists (procs t (s_log s)), p, (pkts_of (t_prog (thr s t))). split; reflexivity.
+  - intros H; inversion H; subst; clear H. split; [|reflexivity]. left.
+    unfold order_line. rewrite Hthr. cbn [s_log t_pc t_prog]. rewrite Hcf. reflexivity.
   - discriminate.
   - discriminate.
 Qed.
@@ -1401,10 +1504,11 @@ Proof.
       { apply enabled_lt. unfold exec in E. destruct (enabled' s t); [reflexivity|discriminate]. }
       assert (Hth : thr s' t2 = thr s t2).
       { destruct (exec_spec _ _ _ _ E) as
-          [th' _ _ _ _ _ _ Ht2 _ _ _ _
-          |p th' c free' objs0 _ _ _ _ _ Ht2 _ _ _ _
-          |c w st' evs closes th' _ _ _ _ _ _ _ _ Ht2 _ _ _
-          |c k th' _ _ _ _ _ _ Ht2 _ _]; eapply thr_upd_ne; eassumption. }
+          [th' _ _ _ _ _ _ Ht2 _ _ _ _ _
+          |p th' c free' objs0 _ _ _ _ _ Ht2 _ _ _ _ _
+          |c w st' evs closes th' _ _ _ _ _ _ _ _ Ht2 _ _ _ _
+          |c k th' _ _ _ _ _ _ Ht2 _ _ _
+          |c age rest th' _ _ _ _ _ _ Ht2 _ _ _]; eapply thr_upd_ne; eassumption. }
       unfold order_line. rewrite Hth, (Ho _ N). apply IH.
 Qed.
 
@@ -1424,7 +1528,7 @@ End Proofs.
 Lemma count_complete_app a b : count_complete (a ++ b) = count_complete a + count_complete b.
 Proof. unfold count_complete. rewrite filter_app, app_length. reflexivity. Qed.
 
-Lemma t_send_spec ret n q st' ev b : t_send ret n q = (st', ev, b) ->
+Lemma t_send_spec ret n q l st' ev b : t_send ret n q l = (st', ev, b) ->
   (b = true -> tc_closed st' = true) /\ count_complete ev = (if b then 1 else 0).
 Proof.
   unfold t_send. destruct (t_add_contig n q ret) as [[ret' n'] q'].
@@ -1439,32 +1543,53 @@ Proof.
   - destruct (tc_q st) as [|pg r].
     + intros H; inversion H; subst. cbn. split; [reflexivity|]. rewrite count_complete_app. reflexivity.
     + destruct (t_add_next (tc_next st) pg) as [ch n'].
-      destruct (t_send [ch] n' r) as [[st1 evs] closes] eqn:Es.
-      destruct (t_send_spec _ _ _ _ _ _ Es) as [A B].
+      destruct (t_send [ch] n' r (tc_last st)) as [[st1 evs] closes] eqn:Es.
+      destruct (t_send_spec _ _ _ _ _ _ _ Es) as [A B].
       destruct closes.
       * intros H; inversion H; subst. split; [auto|]. rewrite count_complete_app, B. reflexivity.
       * intros H. destruct (IH _ _ _ _ _ H) as [C D]. split; [assumption|].
         rewrite D, count_complete_app, B. lia.
 Qed.
 
-Lemma tcp_machine_ok : machine_ok tconn tc_init tc_closed tcp_process tcp_flush.
+Lemma t_age_loop_spec fuel T : forall st acc st' ev b, t_age_loop fuel T st acc = (st', ev, b) ->
+  (b = true -> tc_closed st' = true) /\ count_complete ev = count_complete acc + (if b then 1 else 0).
 Proof.
-  split; [reflexivity|]. split.
+  induction fuel as [|f IH]; intros st acc st' ev b; cbn [t_age_loop].
+  - intros H; inversion H; subst. split; [discriminate|lia].
+  - destruct (tc_q st) as [|pg r].
+    + destruct (tc_last st <? T)%Z; intros H; inversion H; subst; cbn.
+      * split; [reflexivity|]. rewrite count_complete_app. reflexivity.
+      * split; [discriminate|lia].
+    + destruct (tp_seen pg <? T)%Z; [|intros H; inversion H; subst; split; [discriminate|lia]].
+      destruct (t_add_next (tc_next st) pg) as [ch n'].
+      destruct (t_send [ch] n' r (tc_last st)) as [[st1 evs] closes] eqn:Es.
+      destruct (t_send_spec _ _ _ _ _ _ _ Es) as [A B].
+      destruct closes.
+      * intros H; inversion H; subst. split; [auto|]. rewrite count_complete_app, B. reflexivity.
+      * intros H. destruct (IH _ _ _ _ _ H) as [C D]. split; [assumption|].
+        rewrite D, count_complete_app, B. lia.
+Qed.
+
+Lemma tcp_machine_ok : machine_ok tconn tc_init tc_closed tcp_reset tcp_process tcp_flush.
+Proof.
+  split; [reflexivity|]. split; [reflexivity|]. split.
   - intros st h p st' ev b. unfold tcp_process. destruct (tc_closed st) eqn:Ec.
     + intros H; inversion H; subst. repeat split; auto; discriminate.
-    + assert (Hs : forall ret n q, t_send ret n q = (st', ev, b) ->
+    + assert (Hs : forall ret n q l, t_send ret n q l = (st', ev, b) ->
          (b = true -> false = false /\ tc_closed st' = true) /\ (false = true -> tc_closed st' = true) /\
          count_complete ev = (if b then 1 else 0)).
-      { intros ret n q Hs. destruct (t_send_spec _ _ _ _ _ _ Hs) as [A B]. repeat split; auto; discriminate. }
+      { intros ret n q l Hs. destruct (t_send_spec _ _ _ _ _ _ _ Hs) as [A B]. repeat split; auto; discriminate. }
       destruct (tc_next st) as [n|].
-      * destruct (0 <? p_seq p - n)%Z.
+      * destruct (0 <? (if p_syn p then p_seq p + 1 else p_seq p) - n)%Z.
         -- intros H; inversion H; subst. repeat split; auto; discriminate.
-        -- destruct (byte_span (Some n) (p_seq p) (p_bytes p)) as [b0 n']. apply Hs.
+        -- destruct (byte_span (Some n) (if p_syn p then (p_seq p + 1)%Z else p_seq p) (p_bytes p)) as [b0 n']. apply Hs.
       * destruct (p_syn p); [apply Hs|].
         intros H; inversion H; subst. repeat split; auto; discriminate.
-  - intros st st' ev b. unfold tcp_flush. destruct (tc_closed st) eqn:Ec.
+  - intros a st st' ev b. unfold tcp_flush. destruct (tc_closed st) eqn:Ec.
     + intros H; inversion H; subst. repeat split; auto; discriminate.
-    + intros H. destruct (t_flush_loop_spec _ _ _ _ _ _ H) as [A B]. repeat split; auto; discriminate.
+    + destruct a as [T|]; intros H;
+        [destruct (t_age_loop_spec _ _ _ _ _ _ _ H) as [A B]|destruct (t_flush_loop_spec _ _ _ _ _ _ H) as [A B]];
+        repeat split; auto; discriminate.
 Qed.
 
 Lemma r_add_contig_len : forall q last accb acce n q' b e,
@@ -1504,45 +1629,80 @@ Proof.
            intros L. apply D. cbn in *. lia.
 Qed.
 
-Lemma rsm_machine_ok : machine_ok rconn rc_init rc_closed rsm_process rsm_flush.
+Lemma r_age_half_spec fuel T lc : forall dir h acc h' ev, r_age_half fuel T lc dir h acc = (h', ev) ->
+  count_complete ev = count_complete acc /\ (h_closed h = true -> h_closed h' = true).
 Proof.
-  split; [reflexivity|]. split.
-  - intros st fwd p st' ev b. unfold rsm_process.
-    set (h := if fwd then r_c2s st else r_s2c st).
-    destruct (h_closed h) eqn:Ec.
-    + intros H; inversion H; subst. repeat split; auto; discriminate.
-    + assert (Hopen : rc_closed st = false).
-      { unfold rc_closed. subst h. destruct fwd; rewrite Ec; [reflexivity|apply andb_false_r]. }
+  induction fuel as [|f IH]; intros dir h acc h' ev; cbn [r_age_half].
+  - intros H; inversion H; subst. split; [reflexivity|auto].
+  - destruct (h_closed h) eqn:Ec.
+    + intros H; inversion H; subst. split; [reflexivity|auto].
+    + destruct (h_q h) as [|pg r] eqn:Eq.
+      * destruct (lc <? T)%Z; intros H; inversion H; subst; split; try reflexivity; discriminate.
+      * destruct (rp_seen pg <? T)%Z; [|intros H; inversion H; subst; split; [reflexivity|discriminate]].
+        destruct (r_send dir (h_next h) r (rp_seq pg) (rp_bytes pg) false (rp_end pg)) as [[[ev1 q'] e] nseq] eqn:Es.
+        destruct (r_send_spec _ _ _ _ _ _ _ _ _ _ _ Es) as [A B].
+        assert (Hc : count_complete (acc ++ [ev1]) = count_complete acc).
+        { rewrite count_complete_app. unfold count_complete at 2. cbn. rewrite A. cbn. lia. }
+        destruct e.
+        -- intros H; inversion H; subst. split; [assumption|discriminate].
+        -- intros H. destruct (IH _ _ _ _ _ H) as [C D]. split; [congruence|discriminate].
+Qed.
+
+Lemma rsm_machine_ok : machine_ok rconn rc_init rc_closed rsm_reset rsm_process rsm_flush.
+Proof.
+  split; [reflexivity|]. split; [reflexivity|]. split.
+  - intros st0 fwd p st' ev b. unfold rsm_process.
+    set (h0 := if fwd then r_c2s st0 else r_s2c st0).
+    set (h := mkHalf (h_next h0) (h_q h0) (h_closed h0) (if (h_last h0 <? p_ts p)%Z then p_ts p else h_last h0)).
+    set (st := set_half st0 fwd h false).
+    assert (Hcl0 : rc_closed st = rc_closed st0).
+    { unfold rc_closed, st, set_half, h, h0. destruct fwd; reflexivity. }
+    cbn [h_closed h]. change (h_closed h) with (h_closed h0).
+    destruct (h_closed h0) eqn:Ec.
+    + intros H; inversion H; subst. rewrite Hcl0. repeat split; auto; discriminate.
+    + assert (Hopen : rc_closed st0 = false).
+      { unfold rc_closed. subst h0. destruct fwd; rewrite Ec; [reflexivity|apply andb_false_r]. }
       assert (Hq : forall st1, (st1, @nil cevent, false) = (st', ev, b) ->
-          (b = true -> rc_closed st = false /\ rc_closed st' = true) /\ (rc_closed st = true -> rc_closed st' = true) /\
+          (b = true -> rc_closed st0 = false /\ rc_closed st' = true) /\ (rc_closed st0 = true -> rc_closed st' = true) /\
           count_complete ev = (if b then 1 else 0)).
       { intros st1 H; inversion H; subst. repeat split; try discriminate; try congruence. }
       destruct (match h_next h with
-                | Some n => if (0 <? p_seq p - n)%Z then (true, p_seq p, Some n) else (false, p_seq p, Some n)
+                | Some n => if (0 <? (if p_syn p then p_seq p + 1 else p_seq p) - n)%Z
+                            then (true, if p_syn p then (p_seq p + 1)%Z else p_seq p, Some n)
+                            else (false, if p_syn p then (p_seq p + 1)%Z else p_seq p, Some n)
                 | None => if p_syn p then (false, (p_seq p + 1)%Z, Some (p_seq p + 1)%Z) else (true, p_seq p, None)
                 end) as [[queue sq] next1].
       destruct queue.
-      * destruct (r_check_overlap (h_q h) true sq (p_bytes p) (p_fin p)) as [[q' b1] cut]. apply Hq.
+      * destruct (r_check_overlap (h_q h) true sq (p_bytes p) (p_fin p) (p_ts p)) as [[q' b1] cut]. apply Hq.
       * destruct (r_overlap_existing next1 sq (p_bytes p)) as [b1 seq1].
-        destruct (r_check_overlap (h_q h) false seq1 b1 (p_fin p)) as [[q1 b2] cut].
+        destruct (r_check_overlap (h_q h) false seq1 b1 (p_fin p) (p_ts p)) as [[q1 b2] cut].
         destruct ((match b2 with [] => false | _ :: _ => true end) || p_fin p || p_syn p); [|apply Hq].
         destruct (r_send (negb fwd) next1 q1 seq1 b2 (p_syn p) (p_fin p)) as [[[ev1 q2] e] nseq] eqn:Es.
         destruct (r_send_spec _ _ _ _ _ _ _ _ _ _ _ Es) as [A _].
         destruct e.
         -- unfold r_after_close.
-           destruct (rc_closed (set_half st fwd (mkHalf (Some (if p_fin p then (nseq + 1)%Z else nseq)) [] true) cut)) eqn:Ecl;
+           destruct (rc_closed (set_half st fwd (mkHalf (Some (if p_fin p then (nseq + 1)%Z else nseq)) [] true (h_last h)) cut)) eqn:Ecl;
              intros H; inversion H; subst; unfold count_complete; cbn; rewrite A; cbn;
              repeat split; try discriminate; try congruence; auto.
         -- intros H; inversion H; subst; unfold count_complete; cbn; rewrite A; cbn;
              repeat split; try discriminate; try congruence.
-  - intros st st' ev b. unfold rsm_flush. destruct (rc_closed st) eqn:Ec.
+  - intros a st st' ev b. unfold rsm_flush. destruct (rc_closed st) eqn:Ec.
     + intros H; inversion H; subst. repeat split; auto; discriminate.
-    + destruct (r_flush_half (S (length (h_q (r_s2c st)))) true (r_s2c st) []) as [hs e1] eqn:E1.
-      destruct (r_flush_half (S (length (h_q (r_c2s st)))) false (r_c2s st) e1) as [hc e2] eqn:E2.
-      destruct (r_flush_half_spec _ _ _ _ _ _ E1) as [A1 B1].
-      destruct (r_flush_half_spec _ _ _ _ _ _ E2) as [A2 B2].
-      intros H; inversion H; subst.
-      split; [intros _; split; [reflexivity|]|split; [discriminate|]].
-      * unfold rc_closed; cbn. rewrite B1, B2 by lia. reflexivity.
-      * rewrite count_complete_app, A2, A1. reflexivity.
+    + destruct a as [T|].
+      * destruct (r_age_half (S (length (h_q (r_s2c st)))) T (rc_last st) true (r_s2c st) []) as [hs e1] eqn:E1.
+        destruct (r_age_half (S (length (h_q (r_c2s st)))) T (rc_last st) false (r_c2s st) e1) as [hc e2] eqn:E2.
+        destruct (r_age_half_spec _ _ _ _ _ _ _ _ E1) as [A1 _].
+        destruct (r_age_half_spec _ _ _ _ _ _ _ _ E2) as [A2 _].
+        destruct (rc_closed (mkRC hc hs (r_unsup st))) eqn:Ecl; intros H; inversion H; subst.
+        -- split; [intros _; split; [reflexivity|assumption]|split; [discriminate|]].
+           rewrite count_complete_app, A2, A1. reflexivity.
+        -- split; [discriminate|split; [discriminate|]]. rewrite A2, A1. reflexivity.
+      * destruct (r_flush_half (S (length (h_q (r_s2c st)))) true (r_s2c st) []) as [hs e1] eqn:E1.
+        destruct (r_flush_half (S (length (h_q (r_c2s st)))) false (r_c2s st) e1) as [hc e2] eqn:E2.
+        destruct (r_flush_half_spec _ _ _ _ _ _ E1) as [A1 B1].
+        destruct (r_flush_half_spec _ _ _ _ _ _ E2) as [A2 B2].
+        intros H; inversion H; subst.
+        split; [intros _; split; [reflexivity|]|split; [discriminate|]].
+        -- unfold rc_closed; cbn. rewrite B1, B2 by lia. reflexivity.
+        -- rewrite count_complete_app, A2, A1. reflexivity.
 Qed.
